@@ -16,6 +16,7 @@ pub fn alphabet() -> Vec<Op> {
         Op::DropGuard { g: u16::MAX },
         Op::Notify { src: 0, id: 1 },
         Op::Notify { src: 1, id: 2 },
+        Op::NotifyEvery { id: 3 },
         Op::Process { ws: 0, sleep: false, drain: all, renotify: 0, cb_notify: None },
         Op::Process { ws: 0, sleep: false, drain: 0, renotify: 0, cb_notify: None },
     ]
@@ -47,6 +48,7 @@ fn op_strategy() -> impl Strategy<Value = Op> {
         4 => any::<u16>().prop_map(|g| Op::DropGuard { g }),
         5 => (src(), 0u8..5).prop_map(|(src, id)| Op::Notify { src, id }),
         2 => (src(), 0u8..5).prop_map(|(src, id)| Op::NotifyAll { src, id }),
+        1 => (0u8..5).prop_map(|id| Op::NotifyEvery { id }),
         1 => src().prop_map(|src| Op::Drain { src }),
         7 => (ws(), prop_oneof![5 => Just(false), 1 => Just(true)], prop_oneof![2 => Just(0xffu8), 1 => Just(0u8), 1 => any::<u8>()], prop_oneof![3 => Just(0u8), 1 => any::<u8>()], prop_oneof![3 => Just(None), 1 => src().prop_map(Some)])
             .prop_map(|(ws, sleep, drain, renotify, cb_notify)| Op::Process { ws, sleep, drain, renotify, cb_notify }),
